@@ -553,7 +553,12 @@ func (u *Unit) specCall(st *State, fn *ssa.Function, args []Value) Value {
 	s0 := st.clone()
 	outs := u.callFn(s0, fn, args, nil, 1, "")
 	if len(outs) == 0 {
-		specFail("spec function %s has no outcome", fn.Name())
+		if !u.feasible(st) {
+			// the path itself is infeasible (a contradictory path condition reaches this point because safety
+			// obligations do not prune): any value will do, the obligation is vacuous
+			return u.havoc(st, fn.Signature.Results().At(0).Type(), "infeasible")
+		}
+		specFail("spec function %s has no outcome (%v)", fn.Name(), sortedKeys(u.unsup))
 	}
 	// merge outcomes: each path's extra conditions select its value
 	var acc Value
